@@ -345,7 +345,7 @@ where
         }
         Ok(None) => {}
         Err(e) => {
-            if src.seen_doc_end() {
+            if src.seen_doc_end() && !matches!(e.without_snippet(), Error::Budget { .. }) {
                 // Trailing garbage after a proper document end marker is ignored.
             } else {
                 return Err(maybe_with_snippet(e, input, with_snippet, crop_radius));
@@ -451,7 +451,7 @@ fn from_str_with_options_and_path_recorder<T: DeserializeOwned>(
         }
         Ok(None) => {}
         Err(e) => {
-            if src.seen_doc_end() {
+            if src.seen_doc_end() && !matches!(e.without_snippet(), Error::Budget { .. }) {
                 // ignore trailing garbage
             } else {
                 return Err(maybe_with_snippet(e, input, with_snippet, crop_radius));
@@ -745,7 +745,7 @@ where
         }
         Ok(None) => {}
         Err(e) => {
-            if src.seen_doc_end() {
+            if src.seen_doc_end() && !matches!(e.without_snippet(), Error::Budget { .. }) {
                 // Trailing garbage after a proper document end marker is ignored.
             } else {
                 return Err(e);
@@ -1127,7 +1127,7 @@ where
         }
         Ok(None) => {}
         Err(e) => {
-            if src.seen_doc_end() {
+            if src.seen_doc_end() && !matches!(e.without_snippet(), Error::Budget { .. }) {
                 // Trailing garbage after a proper document end marker is ignored.
             } else {
                 return Err(e);
@@ -1737,7 +1737,7 @@ pub fn from_reader_with_options<'a, R: std::io::Read + 'a, T: DeserializeOwned>(
         }
         Ok(None) => {}
         Err(e) => {
-            if src.seen_doc_end() {
+            if src.seen_doc_end() && !matches!(e.without_snippet(), Error::Budget { .. }) {
                 // Trailing garbage after a proper document end marker is ignored.
             } else {
                 return Err(attach_snippet(e));
